@@ -366,6 +366,16 @@ def execute(prop, scen):
                     y = pd.Series(vals_, index=y_main.index)
                     y2 = pd.Series(vals_, index=y2_main.index)
                     res.probe("refitted_on_structureless_series")
+                if '"pearsonr"' in json.dumps(spec):
+                    # (scipy's bracket search for the Pearson criterion can fail on a given
+                    # sample: that is tolerated at fit, see the fit op)
+                    try:
+                        with peers.paused():
+                            build(spec).fit(y.iloc[st:st + n_fit])
+                            build(spec).fit(y2.iloc[st:st + n_fit])
+                    except Exception:
+                        y, y2 = y_main, y2_main
+                        continue
                 if via == "fit_transform":
                     # fit_transform on an already fitted object == fit(z).transform(z) of a new one
                     outs = both("fit_transform", lambda tr, yy: tr.fit_transform(
